@@ -49,6 +49,12 @@ fn build_env(s: &Subject, fuel: Option<u64>, log: &ProbeLog) -> Result<Environme
         }
         Value::from("")
     });
+    // a host function that calls back into the engine and swallows whatever goes wrong: after an
+    // out-of-fuel error inside it the render must not continue unmetered
+    env.add_function("attempt", |state: &mut State, callee: Value| -> Value { callee.call(state, &[]).unwrap_or_else(|_| Value::from("[unavailable]")) });
+    env.add_function("attempt_render", |state: &State, name: String| -> Value {
+        state.env().get_template(&name).and_then(|t| t.render(())).map(Value::from).unwrap_or_else(|_| Value::from("[unavailable]"))
+    });
     for (n, src) in &s.templates {
         env.add_template_owned(n.clone(), src.clone()).map_err(|e| e.to_string())?;
     }
@@ -251,6 +257,19 @@ pub fn main(args: Args) -> i32 {
         subjects.push(Subject { name: format!("d2#{}:single", n), templates: vec![("main".into(), g2.program(n).source())], main: "main".into() });
         n += stride2;
     }
+    // the error is swallowed by a host function in the middle of the render: the rest of the render is
+    // still metered, so budgets below the threshold keep failing
+    for (n, tail) in [(10usize, 5usize), (40, 40), (3, 60), (60, 3)] {
+        for (form, pre) in [
+            ("macro", "{% macro heavy() %}{% for i in range(N) %}w{% endfor %}{% endmacro %}{{ attempt(heavy) }}"),
+            ("caller", "{% macro run() %}{{ attempt(caller) }}{% endmacro %}{% call run() %}{% for i in range(N) %}w{% endfor %}{% endcall %}"),
+            ("twice", "{% macro heavy() %}{% for i in range(N) %}w{% endfor %}{% endmacro %}{{ attempt(heavy) }}{{ attempt(heavy) }}"),
+            ("in_loop", "{% macro heavy() %}{% for i in range(N) %}w{% endfor %}{% endmacro %}{% for j in range(3) %}{{ attempt(heavy) }}{% endfor %}"),
+        ] {
+            let src = format!("{}|{{% for i in range({}) %}}x{{% endfor %}}{{{{ probe() }}}}", pre.replace('N', &n.to_string()), tail);
+            subjects.push(Subject { name: format!("swallow#{}_{}_{}:swallowed_error", form, n, tail), templates: vec![("main".into(), src)], main: "main".into() });
+        }
+    }
     let single = subjects.len();
     for m in gen::multi_corpus(args.tier.pick(3, 1)) {
         subjects.push(Subject { name: m.name.clone(), templates: m.templates.iter().map(|(a, b)| (a.to_string(), b.clone())).collect(), main: m.main.to_string() });
@@ -273,7 +292,7 @@ pub fn main(args: Args) -> i32 {
             level: "exploration",
             tier: args.tier,
             seed: args.seed,
-            rule: format!("programs: the complete depth-1 space of G ({} programs, bracketed by probe() calls), every {}th program of the depth-2 space, and 5 multi-template families (include, include in loop, extends+super, import/from-import of macros, three-level inheritance) built on depth-1 bodies with probe() calls inside included templates, macros and blocks; x 2 contexts. For each: unlimited render, render under 10^6 (consumption c, consumed+remaining==budget, probe sequence strictly increasing), then EVERY budget 0..=c+3 (400 for failing programs) must show one threshold T (= c+1) below which the result is OutOfFuel and from which on it equals the unlimited result, determinism at T and T-1, and 7 extreme budgets up to u64::MAX. distinct non-trivial = (program, context) pairs for which a threshold was established", g1.size(), stride2),
+            rule: format!("programs: the complete depth-1 space of G ({} programs, bracketed by probe() calls), every {}th program of the depth-2 space, 16 programs in which a host function calls a macro or caller back and swallows its error (the rest of the render stays metered), and 5 multi-template families (include, include in loop, extends+super, import/from-import of macros, three-level inheritance) built on depth-1 bodies with probe() calls inside included templates, macros and blocks; x 2 contexts. For each: unlimited render, render under 10^6 (consumption c, consumed+remaining==budget, probe sequence strictly increasing), then EVERY budget 0..=c+3 (400 for failing programs) must show one threshold T (= c+1) below which the result is OutOfFuel and from which on it equals the unlimited result, determinism at T and T-1, and 7 extreme budgets up to u64::MAX. distinct non-trivial = (program, context) pairs for which a threshold was established", g1.size(), stride2),
             exhaustive: true,
             bound: json!({"extremes": EXTREMES, "contexts": 2}),
             assumptions: vec!["the depth-2 space is visited by a fixed stride (systematic subset), not completely".into()],
